@@ -21,7 +21,7 @@ def run(tier, seed, replay=None):
     except vbuild.BuildError as e:
         ob["ok"] = False
         ob["failures"].append("correspondence harness does not compile against the current source: " + str(e)[-400:])
-        return ck.finish(ob, rule="-")
+        return ck.finish(ob, rule="one case in three uses the solver object for the second time (it first solves the row/column-reversed matrix); -")
     if not ob.get("driver_ok", True):
         return ck.finish(ob, rule="-")
     if False and replay:
